@@ -18,7 +18,8 @@ def heads(*hs):
 
 class Job:
     def __init__(self, family, quick, thorough, size=0, extra=(), fsets=("default",), fsets_thorough=None,
-                 relevant=None, nontrivial=None, timeout=600, label=None, size_thorough=None):
+                 relevant=None, nontrivial=None, timeout=600, label=None, size_thorough=None, needs_bins=False):
+        self.needs_bins = needs_bins
         self.family = family
         self.quick = quick
         self.thorough = thorough
@@ -268,6 +269,26 @@ PROPS["C08"] = dict(
 )
 
 
+PROPS["C15"] = dict(
+    level_text="Machine-checked proof (Lean 4) about the model of App::run (Cli.run: three arms, per-mode wiring table, fixed section order): the printed sections are exactly the requested ones the "
+               "mode implements (C15.sections_exact), in the documented order grounded, complete, (two-valued,) stable... (sections_in_documented_order), each once (sections_nodup), one block per "
+               "section (run_blocks); the hybrid default implements every section; malformed input gives a non-zero exit and no output (rejects_malformed). PARTIAL: that every block equals the "
+               "specification's answer (cli_faithful_statement) is the composition of C01-C05's exactness statements and is not proved as one theorem. Tie to the code: the REAL adf-bdd binary, "
+               "built from the current tree, is run on generated files x --lib {naive, biodivine, hybrid} x {none, --lx, --an} x single flags and random flag sets x --heu; exit status, "
+               "well-formedness of every line (each statement labelled by its own name, in variable order) and the line sequence are compared with the model, the multiset of lines with the "
+               "specification; six kinds of malformed files must be rejected with empty stdout; --export must not overwrite and --import must reproduce the answers (also serves C14).",
+    level_note="Trusted: Lean kernel + standard axioms; process behaviour (exit codes, panics, file system) is observed, not proved; with --stmrew/--stmrew2 the whole output is compared as a multiset "
+               "(candidate order is biodivine's); KNOWN FINDING D6: a quoted label containing one of !&|^=<>()?: aborts --lib biodivine and the default --lib hybrid (biodivine rejects the variable name).",
+    technique="Lean 4 proof (wiring and ordering of the CLI model) + correspondence of the real binary with the model and the specification",
+    jobs=[Job("adf", 120, 2500, size=5, size_thorough=6, extra=("cli",), timeout=900, needs_bins=True,
+              relevant=heads("cli", "clirun", "clibad", "cliexport", "cliq"), nontrivial=lambda st: int(st.get("n", 0)) >= 2)],
+    rule=ADF_GEN + "per ADF six invocations of the real binary (4 single-flag, 2 random flag sets; random mode, sorting, heuristic, fact permutation, label class, layout), one malformed file "
+         "(missing terminator / trailing garbage / unbalanced bracket / wrong arity / unknown connective / leading blank), every 10th ADF an export-twice-then-import run; "
+         "non-trivial = distinct ADF with >= 2 statements",
+    assumptions=["flags a mode does not implement print nothing there (reading fixed in DESIGN.md section 5)"],
+)
+
+
 # ----------------------------------------------------------------------------------------------
 
 def case_hash(reqs):
@@ -344,7 +365,13 @@ def check_property(prop, tier, seed):
     built = set()
     results = []
     build_fail = None
+    if any(j.needs_bins for j in cfg["jobs"]):
+        ok, err = R.build_repo_bins()
+        if not ok:
+            build_fail = "adf-bdd / adf-bdd-server do not build from the current tree: " + err[-1500:]
     for job in cfg["jobs"]:
+        if build_fail:
+            break
         for fset in (job.fsets if tier == "quick" else job.fsets_thorough):
             if fset not in built:
                 ok, err = R.build_harness(fset)
